@@ -1,5 +1,13 @@
 """Texts for MANIFEST.json."""
-HOOK_COMMITS = []
+# hook commits in /repo (add-only files guarded by //go:build verif); found at run time so the list cannot go stale
+import subprocess
+def _hook_commits():
+    try:
+        out = subprocess.run(["git", "-C", "/repo", "log", "--format=%H %s"], capture_output=True, text=True).stdout
+        return [l.split()[0] for l in out.splitlines() if " verif hook:" in " " + l.split(" ", 1)[1] or l.split(" ", 1)[1].startswith("verif hook")]
+    except Exception:
+        return []
+HOOK_COMMITS = _hook_commits()
 ENGINES = [
     {"name": "coq", "path": "/verif/coq", "serves_properties": [], "kind_free_text": "Coq 8.16.1 development: models, proofs, property theorems (Properties/Cxx.v), case evaluators (Harness/Cxx.v)"},
     {"name": "nghx", "path": "/verif/harness", "serves_properties": [], "kind_free_text": "Go harness built against /repo's working tree with -tags verif; drives the implementation, prints observations as Coq terms; table translator"},
